@@ -126,3 +126,14 @@ impl Buf for &[u8] {
     #[verifier::external_body]
     fn advance(&mut self, cnt: usize) { unimplemented!() }
 }
+
+// H2 (rule N8): `buf.get_mut()[pos..].as_mut().put_u16(n)` overwrites the two bytes at `pos` (AsMut<[u8]> + range IndexMut
+// are outside Verus' reach); everything else, including the limit, is untouched.  bytes panics if fewer than 2 bytes follow `pos`.
+#[verifier::external_body]
+fn h2_put_u16_at(buf: &mut Limit, pos: usize, n: u16)
+    requires pos + 2 <= old(buf).inner@.len(),
+    ensures final(buf).inner@ == old(buf).inner@.update(pos as int, be16(n)[0]).update(pos as int + 1, be16(n)[1]),
+            final(buf).limit == old(buf).limit,
+{
+    unimplemented!()
+}
